@@ -197,7 +197,7 @@ func (e *Engine) Run(fn *ssa.Function) *Report {
 	e.harnessPkg = fn.Pkg
 	st := &State{heap: map[int]*Obj{}, ep: &epoch{}, globals: map[*ssa.Global]int{}, inited: map[*ssa.Package]bool{},
 		known: map[int]*Term{}, reached: map[string]bool{}, flags: map[string]string{}, ufApps: map[string][]ufApp{},
-		seq: map[string]int{}, ghost: map[string]Value{}}
+		seq: map[string]int{}, ghost: map[string]Value{}, multi: map[int]bool{}}
 	e.pushFrame(st, fn, nil, retTop)
 	e.work = []*State{st}
 	for len(e.work) > 0 {
